@@ -438,6 +438,24 @@ ENTRIES = {
                     lambda L, a: _split_where(L, a['P']), ['P'], char=True),
     'sliceWhere': E('$c.sliceWhere({P})',
                     lambda L, a: _slice_where(L, a['P']), ['P']),
+    # the chunks are lists of their own: they can be read in any order,
+    # later and more than once
+    'sliceWhere-toList': E('$c.sliceWhere({P}).toList()',
+                           lambda L, a: _slice_where(L, a['P']), ['P']),
+    'sliceWhere-reverse': E('$c.sliceWhere({P}).reverse()',
+                            lambda L, a: _slice_where(L, a['P'])[::-1],
+                            ['P']),
+    'sliceWhere-twice': E(
+        'let(s => $c.sliceWhere({P}).toList()) -> [$s.select($.len()), $s]',
+        lambda L, a: [[len(x) for x in _slice_where(L, a['P'])],
+                      _slice_where(L, a['P'])], ['P']),
+    'sliceWhere-concat': E('$c.sliceWhere({P}).toList().selectMany($)',
+                           lambda L, a: list(L), ['P']),
+    'slice-reverse': E('$c.slice($m + 1).reverse()',
+                       lambda L, a: _slice(L, a['m'] + 1)[::-1], ['m']),
+    'splitWhere-reverse': E('$c.splitWhere({P}).reverse()',
+                            lambda L, a: _split_where(L, a['P'])[::-1],
+                            ['P']),
     'splitAt': E('$c.splitAt($n)', lambda L, a: [L[:a['n']], L[a['n']:]],
                  ['n'], char=True),
     # ---- aggregation -----------------------------------------------------
